@@ -29,6 +29,23 @@ def run(chk):
                 plan = [{"o": "ok"}, {"o": "ok", "status": {"amount": [1]}}, {"o": "pending"}] + ([{"o": "ok"}] if dang else []) + [{"o": "abort", "code": code}]
                 extra.append({"config": {"max": 1}, "term": {"dangling": dang}, "calls": [{"op": "begin", "token": [97]}, {"op": op, "token": [97], "amount": [1]}],
                               "plan": {"exchanges": plan}})
+    # an end-of-day refusal that names a receipt number (06 1E 04 cc 87 rr rr), and a refused reversal of the dangling pre-authorisation
+    for code in (0, 119, 160, 183, 181):
+        for op in ("commit", "cancel"):
+            for rn in (8, 65535):
+                plan = [{"o": "ok"}, {"o": "ok", "status": {"amount": [1]}}, {"o": "pending"}, {"o": "abort", "code": code, "abort_receipt": rn}]
+                extra.append({"config": {"max": 1}, "term": {"dangling": []}, "calls": [{"op": "begin", "token": [97]}, {"op": op, "token": [97], "amount": [1]}],
+                              "plan": {"exchanges": plan}})
+            for dcode in (180, 181, 0):
+                plan = [{"o": "ok"}, {"o": "ok", "status": {"amount": [1]}}, {"o": "pending"}, {"o": "abort", "code": dcode}, {"o": "ok"}]
+                extra.append({"config": {"max": 1}, "term": {"dangling": [4711]}, "calls": [{"op": "begin", "token": [97]}, {"op": op, "token": [97], "amount": [1]}],
+                              "plan": {"exchanges": plan, "default": {"o": "abort", "code": dcode}}})
+    # the pending query answered by something else than its 06 1E packet
+    for kind in ("intermediate", "completion", "status"):
+        for op in ("commit", "cancel"):
+            plan = [{"o": "ok"}, {"o": "ok", "status": {"amount": [1]}}, {"o": "unexpected", "kind": kind}]
+            extra.append({"config": {"max": 1}, "term": {"dangling": []}, "calls": [{"op": "begin", "token": [97]}, {"op": op, "token": [97], "amount": [1]}],
+                          "plan": {"exchanges": plan}})
     # histories in which an earlier call failed: the later call that leaves nothing open must still clean up
     okp = {"o": "ok", "status": {"amount": [1]}}
     for second in ("commit", "cancel"):
